@@ -1,0 +1,28 @@
+//go:build verif
+
+package eds
+
+// Contracts for the deductive verifier in /verif (govc). Comments only; build tag "verif".
+//
+// C05 / C09: the validating wrapper reaches the wrapped accessor only with arguments inside the
+// square: out-of-range coordinates, rows and ranges are rejected before they can be mis-served.
+
+//@ func (validation).Sample
+//@   property C05 C09
+//@   noframe
+//@   callpre eds.Accessor).Sample: size > 0 && 0 <= idx.Row && idx.Row < size && 0 <= idx.Col && idx.Col < size
+
+//@ func (validation).AxisHalf
+//@   property C05 C09
+//@   noframe
+//@   callpre eds.Accessor).AxisHalf: size > 0 && 0 <= axisIdx && axisIdx < size
+
+//@ func (validation).RowNamespaceData
+//@   property C05 C09
+//@   noframe
+//@   callpre eds.Accessor).RowNamespaceData: size > 0 && 0 <= rowIdx && rowIdx < size
+
+//@ func (validation).RangeNamespaceData
+//@   property C05 C09
+//@   noframe
+//@   callpre eds.Accessor).RangeNamespaceData: 0 <= from && from < to && to <= (edsSize/2)*(edsSize/2)
